@@ -820,5 +820,208 @@ seed("c19-limit-raised-for-sasl", "C19", "R-linelimit-restored", "conn.go",
 	for {
 		challenge, done, err := sasl.Next(response)""", "limit raised in handleAuth and never restored")
 
+seed("c18-loop-by-writer-flag", "C18", "R-lmtp-loop", "client.go",
+"""	if d.c.lmtp {""", """	if d.lmtp {""", "reply loop selected by a writer field that Data() never sets",
+more=[("	statusCb func(rcpt string, status *SMTPError)\n	closed   bool\n}", "	lmtp     bool\n	statusCb func(rcpt string, status *SMTPError)\n	closed   bool\n}"),
+      ("	return &dataCloser{c: c, WriteCloser: c.text.DotWriter(), statusCb: statusCb}, nil", "	return &dataCloser{c: c, WriteCloser: c.text.DotWriter(), lmtp: true, statusCb: statusCb}, nil")])
+
+seed("c17-helo-error-rewritten", "C17", "R-err-passthrough", "conn.go",
+"""			c.helo = ""
+			c.writeError(451, EnhancedCode{4, 0, 0}, err)
+			return""", """			c.helo = ""
+			if !enhanced {
+				if smtpErr, ok := err.(*SMTPError); ok {
+					err = &SMTPError{Code: smtpErr.Code, EnhancedCode: NoEnhancedCode, Message: smtpErr.Message}
+				}
+				c.writeError(451, NoEnhancedCode, err)
+				return
+			}
+			c.writeError(451, EnhancedCode{4, 0, 0}, err)
+			return""", "session-creation error answered with a stripped copy on the HELO path")
+
+seed("c16-lmtp-data-no-reset", "C16", "R-envelope-per-message", "conn.go",
+"""	defer c.reset()
+
+	if c.server.LMTP {
+		c.handleDataLMTP()
+		return
+	}
+""", """	if c.server.LMTP {
+		c.handleDataLMTP()
+		return
+	}
+
+	defer c.reset()
+""", "LMTP DATA keeps the envelope: the next message is delivered to the old recipients too")
+
+seed("c13-fill-outer-err", "C13", "R-fill-value", "conn.go",
+"""		err := <-c.dataResult
+
+		if c.server.LMTP {
+			c.bdatStatus.fillRemaining(err)""", """		dataErr := <-c.dataResult
+
+		if c.server.LMTP {
+			c.bdatStatus.fillRemaining(err)""", "missing statuses filled with the chunk copy's (nil) error",
+more=[("			c.writeResponse(dataErrorToStatus(err))\n		}\n\n		if err == errPanic {", "			c.writeResponse(dataErrorToStatus(dataErr))\n		}\n\n		if dataErr == errPanic {")])
+
+seed("c07-callback-before-abort", "C07", "R-abort-on-every-exit", "conn.go",
+"""	if c.bdatPipe != nil {
+		c.bdatPipe.CloseWithError(ErrDataReset)
+		c.bdatPipe = nil
+	}
+	c.bdatStatus = nil
+	c.bytesReceived = 0
+
+	if c.session != nil {
+		c.session.Reset()
+	}
+
+	c.fromReceived = false
+	c.recipients = nil
+}""", """	if c.session != nil {
+		c.session.Reset()
+	}
+
+	c.fromReceived = false
+	c.recipients = nil
+
+	if c.bdatPipe != nil {
+		c.bdatPipe.CloseWithError(ErrDataReset)
+		c.bdatPipe = nil
+	}
+	c.bdatStatus = nil
+	c.bytesReceived = 0
+}""", "Session.Reset called while the abandoned transfer is still live")
+
+seed("c14-domain-stops-at-high-byte", "C14", "R-path-bytes-pass-through", "parse.go",
+"""		if ch == ' ' || ch == '\\t' || ch == '>' {
+			break
+		}
+		p.readByte()""", """		if ch == ' ' || ch == '\\t' || ch == '>' || ch == 0x85 || ch == 0xA0 {
+			break
+		}
+		p.readByte()""", "UTF-8 continuation bytes 0x85/0xA0 end the domain")
+
+seed("c06-writeto-lifts-limit", "C06", "R-limit-armed", "data.go",
+"""func (r *dataReader) Read(b []byte) (n int, err error) {""", """func (r *dataReader) WriteTo(w io.Writer) (written int64, err error) {
+	r.limited = false
+	buf := make([]byte, 4096)
+	for err == nil {
+		var n int
+		if n, err = r.Read(buf); n > 0 {
+			if _, werr := w.Write(buf[:n]); werr != nil {
+				return written, werr
+			}
+			written += int64(n)
+		}
+	}
+	if err == io.EOF {
+		err = nil
+	}
+	return written, err
+}
+
+func (r *dataReader) Read(b []byte) (n int, err error) {""", "io.Copy in the backend reaches WriteTo, which lifts the limit")
+
+seed("c14-notify-join-guard", "C14", "R-field-key", "client.go",
+"""				if i != 0 {
+					sb.WriteString(",")
+				}""", """				if i > 1 {
+					sb.WriteString(",")
+				}""", "first two NOTIFY elements run together")
+seed("c14-ret-zero-value-refused", "C14", "R-zero-options", "client.go",
+"""		case "":
+			// This space is intentionally left blank
+		default:""", """		default:""", "options with Return left empty make Mail fail")
+seed("c13-fallback-status-nil", "C13", "R-fill-value", "conn.go",
+"""		for _, rcpt := range c.recipients {
+			status.SetStatus(rcpt, err)
+		}""", """		_ = err
+		for _, rcpt := range c.recipients {
+			status.SetStatus(rcpt, nil)
+		}""", "plain backend's Data error dropped: every recipient gets 250")
+seed("c04-fallback-status-nil", "C04", "R-fill-value", "conn.go",
+"""		for _, rcpt := range c.recipients {
+			status.SetStatus(rcpt, err)
+		}""", """		_ = err
+		for _, rcpt := range c.recipients {
+			status.SetStatus(rcpt, nil)
+		}""", "plain backend's Data error dropped: every recipient gets 250")
+seed("c08-reset-explicit-unlock", "C08", "R-no-panic-under-lock", "conn.go",
+"""func (c *Conn) reset() {
+	c.locker.Lock()
+	defer c.locker.Unlock()
+
+	if c.bdatPipe != nil {
+		c.bdatPipe.CloseWithError(ErrDataReset)
+		c.bdatPipe = nil
+	}
+	c.bdatStatus = nil
+	c.bytesReceived = 0
+
+	if c.session != nil {
+		c.session.Reset()
+	}
+""", """func (c *Conn) reset() {
+	c.locker.Lock()
+
+	if c.bdatPipe != nil {
+		c.bdatPipe.CloseWithError(ErrDataReset)
+		c.bdatPipe = nil
+	}
+	if c.session != nil {
+		c.session.Reset()
+	}
+	c.locker.Unlock()
+	c.bdatStatus = nil
+	c.bytesReceived = 0
+""", "a panic in Session.Reset leaves Conn.locker held: the recovery's Close blocks")
+seed("c01-budget-zero-is-error", "C01", "R-limit-not-early", "data.go",
+"""		if r.n < 0 {
+			return 0, ErrDataTooLarge""", """		if r.n <= 0 {
+			return 0, ErrDataTooLarge""", "reads adding up to exactly the budget end in 552 instead of EOF")
+seed("c05-dispatcher-answers-bdat", "C05", "R-bdat-consume", "conn.go",
+"""	cmd = strings.ToUpper(cmd)
+	switch cmd {""", """	cmd = strings.ToUpper(cmd)
+	if cmd == "BDAT" && c.helo == "" {
+		c.writeResponse(502, EnhancedCode{5, 5, 1}, "Please introduce yourself first.")
+		return
+	}
+	switch cmd {""", "BDAT refused one level up: its chunk stays in the command stream")
+seed("c04-rcpt-recorded-before-callback", "C04", "R-replies-for-accepted-only", "conn.go",
+"""	if err := c.Session().Rcpt(recipient, opts); err != nil {
+		c.writeError(451, EnhancedCode{4, 0, 0}, err)
+		return
+	}
+	c.recipients = append(c.recipients, recipient)""", """	c.recipients = append(c.recipients, recipient)
+	if err := c.Session().Rcpt(recipient, opts); err != nil {
+		c.writeError(451, EnhancedCode{4, 0, 0}, err)
+		return
+	}""", "refused recipient stays in the list: LMTP sends a final reply for it")
+seed("c02-limiter-check-before-count", "C02", "R-linelimit-threshold", "lengthlimit_reader.go",
+"""		r.curLineLength++
+
+		if r.curLineLength > r.LineLimit {
+			return 0, ErrTooLongLine
+		}""", """		if r.curLineLength >= r.LineLimit {
+			return 0, ErrTooLongLine
+		}
+		r.curLineLength++""", "counter stops at the limit: the refusal is no longer sticky")
+seed("c07-oversize-chunk-no-reset", "C07", "R-oversize-chunk-aborts", "conn.go",
+"""			c.Close()
+		}
+
+		c.reset()
+		return
+	}
+
+	if c.bdatStatus == nil && c.server.LMTP {""", """			c.Close()
+		}
+
+		return
+	}
+
+	if c.bdatStatus == nil && c.server.LMTP {""", "an oversize chunk is dropped but the transfer goes on: LAST completes a message with a hole")
+
 json.dump(S, open(os.path.join(os.path.dirname(os.path.abspath(__file__)), "bank.json"), "w"), indent=1)
 print(len(S), "seeds")
